@@ -78,4 +78,110 @@ example : ((run (graphOf forcedProj) 2 (init (graphOf forcedProj) 2)
       (fun s => (s.finishAt ⟨.test, ["s", "e"]⟩, s.finishAt ⟨.test, ["s", "d"]⟩, s.startAt ⟨.teardown, ["s"]⟩)))
     = some (some 8, some 10, some 12) := by decide +kernel
 
+/-! ### Session scope: the session teardown task — which calls `teardown_factory` of the SESSION-scoped per-thread
+    fixtures — starts only after EVERY test of the run has finished, keyboard interrupt included
+
+    `Reachable` contains the `interrupt` label at any moment and the rounds of `skip_all_tasks` after it
+    (`Sched.release`: a task is handed to the pool for `skip_task` only when ALL its dependencies — on-success ones
+    included — are completed).  The suite ending tasks only have on-success dependencies; a release that looks at the
+    on-completion dependencies only lets them, and then the session teardown, go while tests are still in progress
+    (refuted below on `releaseOnCompletionOnly`). -/
+
+/-- auxiliary: a dependency chain can be extended at its far end -/
+theorem dependsPlus_snoc {Tid : Type} [DecidableEq Tid] {g : Graph Tid} {t m d : Tid}
+    (h : C04.DependsPlus g t m) (hd : d ∈ g.deps m) : C04.DependsPlus g t d := by
+  induction h with
+  | direct h1 => exact .trans h1 (.direct hd)
+  | trans h1 _ ih => exact .trans h1 (ih hd)
+
+/-- auxiliary: the session teardown task depends, through the chain of suite ending tasks, on the ending task of
+    every suite of the project, at any depth -/
+theorem session_teardown_reaches_every_suite_end {P : Proj} (hv : Valid P) (hs : hasSessSetup P = true) :
+    ∀ (k : Nat) (sv : SuiteView), sv ∈ allSuites P → sv.path.length = k →
+      C04.DependsPlus (graphOf P) ⟨.sessTeardown, []⟩ ⟨.end_, sv.path⟩ := by
+  intro k
+  induction k using Nat.strongRecOn with
+  | _ k ih =>
+    intro sv hsv hk
+    rcases flattenSuites_parent P.suites [] false sv hsv with ⟨top, htop, hp⟩ | ⟨sv', hsv', sub, hsub, hp⟩
+    · apply C04.DependsPlus.direct
+      apply complDeps_sub_deps
+      rw [(session_teardown_waits_for_top_ends hv hs).1, hp]
+      exact List.mem_map.mpr ⟨top, htop, rfl⟩
+    · have hlt : sv'.path.length < k := by rw [← hk, hp]; simp
+      have h1 := ih _ hlt sv' hsv' rfl
+      apply dependsPlus_snoc h1
+      apply succDeps_sub_deps
+      rw [(end_waits_for_children hv hsv').1, hp]
+      simp only [List.cons_append, List.mem_cons, List.mem_append, List.mem_map]
+      exact Or.inr (Or.inr ⟨sub, hsub, rfl⟩)
+
+/-- **The scope of a session-scoped per-thread instance ends after every test of the run** — in every reachable
+    state of every run of every valid project, every worker count, every interleaving, a keyboard interrupt at any
+    moment included (tests in progress at the time of the Ctrl-C, tests skipped by `skip_all_tasks`, tests marked
+    disabled): when the session teardown task has started, the task of every test of every suite (any depth) has
+    FINISHED before.  So no instance is torn down while a test that received it is still running. -/
+theorem session_scope_ends_after_every_test_of_the_run {P : Proj} (hv : Valid P) (hs : hasSessSetup P = true)
+    {sv : SuiteView} (hsv : sv ∈ allSuites P) (t : TestSpec) (ht : t ∈ sv.spec.tests)
+    (n : Nat) (s : State TaskId) (hr : Reachable (graphOf P) n s)
+    (i : Nat) (hi : s.startAt ⟨.sessTeardown, []⟩ = some i) :
+    ∃ j, s.finishAt ⟨.test, sv.path ++ [t.name]⟩ = some j ∧ j < i := by
+  have h1 := session_teardown_reaches_every_suite_end hv hs _ sv hsv rfl
+  have h2 : C04.DependsPlus (graphOf P) ⟨.sessTeardown, []⟩ ⟨.test, sv.path ++ [t.name]⟩ := by
+    apply dependsPlus_snoc h1
+    apply succDeps_sub_deps
+    rw [(end_waits_for_children hv hsv).1]
+    simp only [List.cons_append, List.mem_cons, List.mem_append, List.mem_map]
+    exact Or.inr (Or.inl (Or.inl ⟨t, ht, rfl⟩))
+  exact C04.transitive_deps_finished_before_start (graphOf P) n s hr _ _ h2 i hi
+
+/-- … likewise every suite teardown task (suite-scoped instances) has finished before -/
+theorem session_scope_ends_after_every_suite_teardown {P : Proj} (hv : Valid P) (hs : hasSessSetup P = true)
+    {sv : SuiteView} (hsv : sv ∈ allSuites P) (hinit : hasInit P sv = true)
+    (n : Nat) (s : State TaskId) (hr : Reachable (graphOf P) n s)
+    (i : Nat) (hi : s.startAt ⟨.sessTeardown, []⟩ = some i) :
+    ∃ j, s.finishAt ⟨.teardown, sv.path⟩ = some j ∧ j < i := by
+  have h1 := session_teardown_reaches_every_suite_end hv hs _ sv hsv rfl
+  have h2 : C04.DependsPlus (graphOf P) ⟨.sessTeardown, []⟩ ⟨.teardown, sv.path⟩ := by
+    apply dependsPlus_snoc h1
+    apply succDeps_sub_deps
+    rw [(end_waits_for_children hv hsv).1]
+    simp [hinit]
+  exact C04.transitive_deps_finished_before_start (graphOf P) n s hr _ _ h2 i hi
+
+/-- the hypotheses are satisfiable: `sessionProj` (a session-scoped per-thread fixture used by two tests) is valid and
+    has a session teardown task -/
+theorem sessionProj_valid : Valid sessionProj :=
+  ⟨by decide, by decide, by decide, by decide, ⟨fun _ => 0, by decide⟩⟩
+
+example : hasSessSetup sessionProj = true := by decide
+
+/-- **What the on-success dependencies are for after a keyboard interrupt** (refutation of the variant in which
+    `skip_all_tasks` releases a task as soon as its ON-COMPLETION dependencies are completed): `sessionProj`, two
+    workers, Ctrl-C while both tests run.  The suite ending task (all its dependencies are on-success ones) is
+    released at once, the worker that finished test `a` skips it, which releases the session teardown task: it is
+    started — `teardown_factory` of the session-scoped per-thread fixture — while test `b` is still RUNNING with
+    its instance. -/
+theorem release_on_completion_only_tears_session_down_under_a_running_test :
+    (runReleaseOnCompletionOnly (graphOf sessionProj) 2 (init (graphOf sessionProj) 2) interruptedSessionTrace).map
+      (fun s => (s.phase ⟨.test, ["s", "b"]⟩, s.mode ⟨.test, ["s", "b"]⟩, s.phase ⟨.sessTeardown, []⟩))
+      = some (.running, some .run, .running) := by decide +kernel
+
+/-- non-vacuity: the scheduler of the code as it is does NOT accept that trace (the suite ending task is not queued
+    while its tests are not completed) … -/
+example : run (graphOf sessionProj) 2 (init (graphOf sessionProj) 2) interruptedSessionTrace = none := by decide +kernel
+
+/-- … and in the interrupted run it does accept, the session teardown starts (clock 16) after both tests finished
+    (9 and 10), as `session_scope_ends_after_every_test_of_the_run` says -/
+example : ((run (graphOf sessionProj) 2 (init (graphOf sessionProj) 2)
+    [.start ⟨.sessSetup, []⟩ false, .finish ⟨.sessSetup, []⟩ .success, .receive ⟨.sessSetup, []⟩,
+     .start ⟨.begin, ["s"]⟩ false, .finish ⟨.begin, ["s"]⟩ .success, .receive ⟨.begin, ["s"]⟩,
+     .start ⟨.test, ["s", "a"]⟩ false, .start ⟨.test, ["s", "b"]⟩ false, .interrupt,
+     .finish ⟨.test, ["s", "a"]⟩ .success, .finish ⟨.test, ["s", "b"]⟩ .success,
+     .receive ⟨.test, ["s", "a"]⟩, .receive ⟨.test, ["s", "b"]⟩,
+     .start ⟨.end_, ["s"]⟩ true, .finish ⟨.end_, ["s"]⟩ .skipped, .receive ⟨.end_, ["s"]⟩,
+     .start ⟨.sessTeardown, []⟩ true]).map
+      (fun s => (s.aborted, s.finishAt ⟨.test, ["s", "a"]⟩, s.finishAt ⟨.test, ["s", "b"]⟩, s.startAt ⟨.sessTeardown, []⟩)))
+    = some (true, some 9, some 10, some 16) := by decide +kernel
+
 end LccModel.C15Scope
